@@ -27,6 +27,20 @@ Theorem C13_slots_constant : forall fdt_npk fdt_ok divf todo done now s o qs s',
 Proof. exact read_queues_slots. Qed.
 Print Assumptions C13_slots_constant.
 
+(* (2b) FIFO admission within a queue: the object a queue starts is the first ready object of the
+   waiting list (objects are appended when added and when a carousel transfer ends); nothing ahead
+   of it is ready for this queue, and the rest of the list keeps its order.  The same statement is
+   evaluated on the implementation's start/stop events on every run (P_C13_events), together with
+   the multiplex bound counted over the objects in transmission. *)
+Theorem C13_fifo_admission : forall fdt_npk fdt_ok divf prio now s id s',
+  get_next_file_transfer fdt_npk fdt_ok divf prio now s = ROk _ (Some id, s') ->
+  exists ahead rest,
+    queue s = ahead ++ id :: rest /\ queue s' = ahead ++ rest
+    /\ should_transfer_now (obj s id) prio (full_fdt s) now = true
+    /\ forall y, In y ahead -> should_transfer_now (obj s y) prio (full_fdt s) now = false.
+Proof. exact fifo_admission. Qed.
+Print Assumptions C13_fifo_admission.
+
 (* (3) block interleaving inside one object (from the BlockEncoder model): one scheduler step
    touches exactly one block of the window; blocks enter the window in list (= SBN) order and
    the window never holds more than interleave_blocks blocks (refill) *)
